@@ -4,6 +4,7 @@ from __future__ import annotations
 import json
 import os
 import random
+import time
 import shutil
 import threading
 from typing import Any, Dict, List
@@ -165,7 +166,7 @@ def replay_schedule(graph, prog, schedule, tag: str):
     return ctl.status, problems, ctl.log
 
 
-def free_run(rng: random.Random, idx: int, n_threads: int):
+def free_run(rng: random.Random, idx: int, n_threads: int, extra: bool = False):
     """Real threads, 1 us switch interval, public deserialize on fresh recursive types."""
     import apischema.recursion as R
     from apischema import deserialize
@@ -175,7 +176,9 @@ def free_run(rng: random.Random, idx: int, n_threads: int):
     classes = list(graph)
     ctl = sched.Controller(keymap, None)
     ctl.yield_lazy = True
-    ctl.only_checker = "DeserializationRecursiveChecker"
+    # `extra` runs add schema generation and lazily registered conversions: they analyse types the model of the
+    # recursion cache does not name, so these runs are compared with the sequential results only (no trace)
+    ctl.only_checker = "none: results only" if extra else "DeserializationRecursiveChecker"
 
     def sample(cls, depth=2):
         out = {}
@@ -197,30 +200,71 @@ def free_run(rng: random.Random, idx: int, n_threads: int):
         plan = {t: [first] + [c for c in cs if c != first] for t, cs in plan.items()}
 
     from apischema import serialize
+    from apischema.conversions import Conversion, deserializer, serializer
+    from apischema.json_schema import deserialization_schema, serialization_schema
+    from typing import List as _List
 
-    def calls(names):
+    # a class converted through LAZILY registered conversions (their first evaluation is slow): every thread
+    # uses it for the first time at about the same moment
+    class LZ:
+        def __init__(self, n):
+            self.n = n
+
+        def __repr__(self):
+            return f"LZ({self.n})"
+
+    LZ.__qualname__ = LZ.__name__ = f"LZ{idx}"
+
+    def lazy_d():
+        time.sleep(0.002)
+        return Conversion(LZ, source=int, target=LZ)
+
+    def lazy_s():
+        time.sleep(0.002)
+        return Conversion(lambda x: x.n, source=LZ, target=int)
+
+    deserializer(lazy=lazy_d, target=LZ)
+    serializer(lazy=lazy_s, source=LZ)
+
+    def lz_calls(schema_first: bool):
+        a = lambda: json.dumps(deserialization_schema(LZ), sort_keys=True)  # noqa: E731
+        b = lambda: repr(deserialize(LZ, 3))  # noqa: E731
+        c = lambda: repr(serialize(LZ, LZ(4)))  # noqa: E731
+        d = lambda: json.dumps(serialization_schema(LZ), sort_keys=True)  # noqa: E731
+        res = {}
+        for k, fn in ((("a", a), ("d", d), ("b", b), ("c", c)) if schema_first else (("b", b), ("c", c), ("a", a), ("d", d))):
+            res[k] = fn()
+        return [res[k] for k in "abcd"] + [repr(serialize([LZ(5)]))]
+
+    def calls(names, schema_first=False):
         """deserialize, then serialize the result through the typed method and through the Any method
         (serialize(obj) dispatches on the runtime class: one shared AnyMethod per option vector)."""
-        out = []
+        # first use of the lazily converted class, the schema side and the (de)serialization side in a different
+        # order from one thread to the next
+        out = lz_calls(schema_first) if extra else []
         for c in names:
             obj = deserialize(getattr(mod, c), sample(c))
             out += [repr(obj), repr(serialize(obj)), repr(serialize(getattr(mod, c), obj)), repr(serialize([obj, 1]))]
+            if extra:
+                # schema generation walks the same types with its own (per call) recursion guards
+                out += [json.dumps(deserialization_schema(_List[getattr(mod, c)]), sort_keys=True)[:400],
+                        json.dumps(serialization_schema(getattr(mod, c)), sort_keys=True)[:400]]
         return out
 
-    def body(names):
+    def body(names, k=0):
         def run():
-            return calls(names)
+            return calls(names, schema_first=bool(k % 2))
         return run
 
     with sched.Installed(ctl) as inst:
-        results = sched.run_threads(ctl, {t: body(cs) for t, cs in plan.items()}, switch_interval=1e-6)
+        results = sched.run_threads(ctl, {t: body(cs, k) for k, (t, cs) in enumerate(plan.items())}, switch_interval=1e-6)
         cache = inst.caches.get(R.DeserializationRecursiveChecker, {})
         final = {ctl.key_name(k): dict.__getitem__(cache, k) for k in dict.keys(cache)}
     # sequential baseline: same calls, one thread, fresh caches
     import apischema.cache
 
     apischema.cache.reset()
-    baseline = {t: calls(cs) for t, cs in plan.items()}
+    baseline = {t: calls(cs, schema_first=bool(k % 2)) for k, (t, cs) in enumerate(plan.items())}
     apischema.cache.reset()
     problems = []
     for t, (kind, val) in results.items():
@@ -346,6 +390,12 @@ def main() -> int:
         runs.append({"graph": graph, "log": log})
         for p in problems:
             rep.violation("free-running threads: " + p, {"graph": graph, "plan": plan, "log": log[:300]})
+    n_extra = n_runs // 2
+    for i in range(n_extra):
+        graph, plan, log, problems = free_run(rng, 10000 + i, rng.choice([2, 3, 4]), extra=True)
+        for p in problems:
+            rep.violation("free-running threads (with schema generation and lazy conversions): " + p, {"graph": graph, "plan": plan})
+    rep.set("free_runs_with_schemas_and_lazy_conversions", n_extra)
     wd = tlc.scratch_dir("verifrec_")
     try:
         validated = 0
